@@ -161,6 +161,11 @@ for _pid, _pre in (("C03", "c03_typecompat_sound"), ("C04", "c04_typecompat_comp
         "assumptions": ["types are well-formed GraphQL types (no `T!!`)", "Kani/CBMC/cadical are sound; rustc MIR is the semantics of the source"],
         "outside": _TC_OUT,
         "harnesses": [
+            # depth <= 2 in ONE harness: cheap (fits even when the kernel is rewritten as a loop, seed c03c)
+            H(_pre + "_d2", "nitrogql-checker", CK + "common.rs", "checker/typecompat_h.rs", "verif_typecompat", ["common::check_type_compatibility"],
+              "variable type and location type: the 6 well-formed nestings with at most 2 wrappers (T, T!, [T], [T]!, [T!], [[T]] minus ill-formed; CODES[0..6]), symbolic selectors, names symbolic over {A, B}",
+              timeout=900, mem_gb=10),
+        ] + [
             H(_pre + "_d3_r%d" % _r, "nitrogql-checker", CK + "common.rs", "checker/typecompat_h.rs", "verif_typecompat", ["common::check_type_compatibility"],
               "variable type: rows %s of the 11 well-formed wrapper nestings of depth <= 3; location type: all 11; chosen by symbolic selectors, names symbolic over {A, B}; instantiation S = interned-name type" % _rows,
               timeout=1500, mem_gb=10)
